@@ -43,6 +43,7 @@ Inductive vcase :=
 | CReported (v : ver) (held requested observed : list string)
 | CFieldWrite (cls : string) (v : ver) (set_tags emitted : list string) (raised : bool)
 | CFieldRead (cls : string) (v : ver) (tag : string) (accepted : bool)
+| CWireField (cls : string) (v : ver) (tag : string) (processed : bool)
 | CStruct (meth cls : string) (v : ver) (refused : bool)
 | CAttrTag (tag : string) (v : ver) (is_attr : bool).
 
@@ -100,6 +101,7 @@ Definition check_vcase (c : vcase) : bool :=
       if class_refused cls v then raised
       else negb raised && list_eqb String.eqb (filter (fun t => tag_allowed cls v t) set_tags) emitted
   | CFieldRead cls v tag accepted => Bool.eqb (negb (class_refused cls v) && tag_allowed cls v tag) accepted
+  | CWireField cls v tag processed => Bool.eqb (wire_processed cls v tag) processed
   | CStruct meth cls v refused => Bool.eqb (class_refused_in meth cls v) refused
   | CAttrTag tag v is_attr => Bool.eqb (attr_tag_allowed tag v) is_attr
   end.
@@ -146,6 +148,7 @@ Definition model_view (c : vcase) : vcase :=
       if class_refused cls v then CFieldWrite cls v set_tags [] true
       else CFieldWrite cls v set_tags (filter (fun t => tag_allowed cls v t) set_tags) false
   | CFieldRead cls v tag _ => CFieldRead cls v tag (negb (class_refused cls v) && tag_allowed cls v tag)
+  | CWireField cls v tag _ => CWireField cls v tag (wire_processed cls v tag)
   | CStruct meth cls v _ => CStruct meth cls v (class_refused_in meth cls v)
   | CAttrTag tag v _ => CAttrTag tag v (attr_tag_allowed tag v)
   end.
